@@ -4,7 +4,7 @@ one iteration of each of the two loops of the model as a function (`transStep`, 
 (generic in the translated loop body, which enters through an equation `hf` per iteration), and the list facts
 of the rule part (`windows(2).all`, `chunks_exact_mut(2)` swap, `position` followed by slicing).
 -/
-import TzVerif.Generated.Src
+import TzVerif.SrcBase
 import TzVerif.Model.Find
 import TzVerif.Proofs.SrcEqZone
 
